@@ -637,6 +637,14 @@ impl<Controller: SourceController> NtpSource<Controller> {
             // to denial of service attacks.
             debug!("Received old/unexpected packet from source");
             actions!()
+        } else if message.is_kiss_ntsn() {
+            // Must be checked before the other kiss codes: a nts not-acknowledge is
+            // matched on its unauthenticated unique identifier, so nothing else
+            // in it (e.g. the NTPv5 poll field signalling RATE or DENY) can be trusted.
+            warn!("Received nts not-acknowledge");
+            // as these can be easily faked, we dont immediately give up on receiving
+            // a response.
+            actions!()
         } else if message.is_kiss_rate(self.last_poll_interval) {
             // KISS packets may not have correct timestamps at all, handle them anyway
             self.remote_min_poll_interval = Ord::max(
@@ -656,11 +664,6 @@ impl<Controller: SourceController> NtpSource<Controller> {
                 self.have_deny_rstr_response = true;
                 actions!()
             }
-        } else if message.is_kiss_ntsn() {
-            warn!("Received nts not-acknowledge");
-            // as these can be easily faked, we dont immediately give up on receiving
-            // a response.
-            actions!()
         } else if message.is_kiss() {
             warn!("Unrecognized KISS Message from source");
             // Ignore unrecognized control messages
